@@ -94,13 +94,22 @@ def check_child(parent_seq, child, frozen, Sequence, respects_frozen=True):
     return bad
 
 
+def frozen_as(frozen, salt):
+    """the frozen positions in one of the container types callers use"""
+    fs = sorted(frozen)
+    k = salt % 5
+    if k == 4 and fs and fs == list(range(fs[0], fs[-1] + 1)):
+        return range(fs[0], fs[-1] + 1)
+    return [set(fs), list(fs), tuple(fs), frozenset(fs), set(fs)][k]
+
+
 def do_move(obj, kind, frozen, args):
     if kind == "swap":
         return obj.swapRes(int(args[0]), int(args[1]))
     if kind == "swapcharge":
         return obj.swapRandChargeRes(frozen)
     if kind == "shuffle":
-        return obj.full_shuffle(frozen)
+        return obj.full_shuffle(frozen_as(frozen, len(obj.seq) + len(frozen)))
     if kind == "block":
         return obj.permute_block_swap(frozen)
     if kind == "cluster":
@@ -122,7 +131,7 @@ def eval_move(toks, state):
         if cached:
             sp.get_kappa()
         RecordingRandom.TAPE = []
-        child = sp.get_shuffled_sequence(frozen)
+        child = sp.get_shuffled_sequence(frozen_as(frozen, len(seq) + len(frozen) + seed))
         bad = check_child(seq, child.SeqObj, frozen, Sequence)
         if sp.get_sequence() != seq:
             bad.append("parent-changed")
